@@ -63,7 +63,7 @@ PROPS = {
         lean_props="Receptor.Props.C09",
         engines=[dict(engine="verify", pkg=NETC, test="TestVerifVerify", n_quick=150, n_thorough=2000),
                  dict(engine="cert", pkg=NETC, test="TestVerifCert", n_quick=20, n_thorough=200)],
-        corr_ops={"verify": ["verify"], "cert": ["issue"]},
+        corr_ops={"verify": ["verify", "verifyseq"], "cert": ["issue"]},
         facts=["rvf_pin_lengths", "rvf_steps", "rvf_usages", "rvf_name_rule", "rvf_name_compare", "tls_client_cfg", "tls_listener_expected"],
         trusted=["crypto/x509 (parsing, chain building, validity, key usage, DNS-name verification) and crypto/tls: oracle booleans "
                  "with ground truth known by construction of the certificates",
@@ -102,6 +102,25 @@ PROPS = {
                  "concatenation, alternation, * + ?) rendered from ASTs, matched in Lean by a verified derivative matcher",
                  "a rule field set to the empty string is 'not given' (as the code treats it)"],
         assumptions=["rule data without two keys differing only in letter case (Go map order would decide)"],
+    ),
+    "C15": dict(
+        lean_props="Receptor.Props.C15",
+        engines=[dict(engine="sig", pkg="pkg/workceptor", test="TestVerifSig", n_quick=260, n_thorough=1365, shardable=False)],
+        corr_ops={"sig": ["command"]},
+        facts=["sig_gate", "sig_should", "sig_unix", "sig_arms", "sig_verify"],
+        trusted=["golang-jwt signature / expiry / audience checks and RSA: oracle with ground truth supplied by the harness that mints "
+                 "the tokens (classes: absent, empty, garbage, valid, expired, other audience, other key, alg none, HMAC keyed with the "
+                 "public key, truncated, future iat with a foreign key)"],
+        assumptions=["the connection kind is what RemoteAddr().Network() reports"],
+    ),
+    "C19": dict(
+        lean_props="Receptor.Props.C19",
+        engines=[dict(engine="redact", pkg="pkg/workceptor", test="TestVerifRedact", n_quick=250, n_thorough=2500)],
+        corr_ops={"redact": ["submit"]},
+        facts=["redact_test", "redact_alloc_test", "redact_alloc_order", "redact_cfr_source", "redact_unredacted_users"],
+        trusted=["strings.ToLower on keys is modelled for ASCII (no non-ASCII rune lower-cases into the prefix 'secret_')",
+                 "Kubernetes units have their own redaction (KubeConfig/KubePod), outside this property's anchors"],
+        assumptions=["responses are the JSON of unitStatusForCFR; log output is not a response"],
     ),
     "C16": dict(
         lean_props="Receptor.Props.C16",
